@@ -332,6 +332,24 @@ func init() {
 		}
 		return "ok " + showPossis(d.GetPossibilities(mkArch(a, 1)))
 	}
+	// dpossnil abi os cpu name...: a Dependency built BY HAND - one relation whose alternatives are Possibility{Name: n} with no
+	// architecture list at all (nil, which String() reads as "no restriction") - and a substvar the caller has resolved
+	// (the parser leaves Architectures nil for substvars): GetPossibilities picks the first alternative
+	ops["dpossnil"] = func(a []string) string {
+		rel := dependency.Relation{}
+		for _, n := range a[3:] {
+			rel.Possibilities = append(rel.Possibilities, dependency.Possibility{Name: n})
+		}
+		d := dependency.Dependency{Relations: []dependency.Relation{rel}}
+		first := showPossis(d.GetPossibilities(mkArch(a, 0)))
+		p, err := dependency.Parse("${x} | other, tail")
+		if err != nil {
+			return "harness-error"
+		}
+		p.Relations[0].Possibilities[0].Name = "resolved"
+		p.Relations[0].Possibilities[0].Substvar = false
+		return first + " / " + showPossis(p.GetPossibilities(mkArch(a, 0)))
+	}
 	ops["dall"] = func(a []string) string {
 		d, err := dependency.Parse(arg(a, 0))
 		if err != nil {
